@@ -1314,6 +1314,18 @@ pub fn generate(ctx: &mut Ctx) {
             emit(ctx, &format!("seq:root_{root}"), "seq", &GraphSrc::Zinc, t);
         }
     }
+    // several associations of ONE parent one after the other (computed ones among them: tags, quantities, ...), in both
+    // orders, on the real database: each answer is that of a fresh namespace
+    for parent in ["air", "site", "ahu", "elec-meter", "weather", "neverMentioned"] {
+        for order in [["tags", "quantities", "tagOn", "is", "tags"], ["quantities", "tags", "is", "tagOn", "quantities"]] {
+            let qs: Vec<Q> = order.iter().map(|a| Q::Assoc(parent.to_string(), a.to_string())).chain([Q::Tags(parent.to_string())]).collect();
+            let mut t = vec![qs.len().to_string()];
+            for q in &qs {
+                q.write(&mut t);
+            }
+            emit(ctx, &format!("seq:assoc_{parent}"), "seq", &GraphSrc::Zinc, t);
+        }
+    }
     // many distinct symbols that are no defs: the caches grow far beyond the number of defs while
     // several threads miss at the same time
     for i in 0..ctx.n(2, 12) {
